@@ -194,7 +194,7 @@ class HookScript(object):
             out = self.outcomes.get((wname, hname), "true")
             if isinstance(out, list):
                 out = out.pop(0) if len(out) > 1 else out[0]
-            self.sim.rec("hook", w=wname, x=hname, r=out, p=kw.get("pid") or 0)
+            self.sim.rec("hook", w=wname, x=hname, r=out, p=kw.get("pid") or kw.get("process_pid") or 0)
             if out == "raise":
                 raise RuntimeError("hook %s scripted to raise" % hname)
             return out == "true"
